@@ -749,6 +749,12 @@ func (c *ChannelWriter) dropDatabase(ctx context.Context, msgBase *commonpb.MsgB
 
 func (c *ChannelWriter) alterDatabase(ctx context.Context, msgBase *commonpb.MsgBase, msg msgstream.TsMsg) error {
 	alterDatabaseMsg := msg.(*msgstream.AlterDatabaseMsg)
+	if skip, err := c.WaitObjReady(ctx, alterDatabaseMsg.GetDbName(), "", "", alterDatabaseMsg.EndTs()); err != nil {
+		return err
+	} else if skip {
+		log.Info("database has been dropped", zap.String("database", alterDatabaseMsg.GetDbName()), zap.String("msg", util.Base64Msg(msg)))
+		return nil
+	}
 	UpdateMsgBase(alterDatabaseMsg.Base, msgBase)
 	dbName, _ := c.mapDBAndCollectionName(alterDatabaseMsg.GetDbName(), "")
 	alterDatabaseMsg.AlterDatabaseRequest.DbName = dbName
